@@ -791,9 +791,11 @@ Definition equals_skel (is_known opres positive asg pat_bool is_typed typ_bool p
   else if pat_enum then (if is_typed && typ_same then EEnumCompl else EValue)
   else EValue.
 
-Definition in_skel (is_known inres positive acc_nonempty pat_enum is_typed typ_same : bool) : ires :=
+(* elementwise: the container is a tuple / list / set / frozenset / dict / range, whose own __contains__ is
+   "equals one of the iterated elements"; any other container leaves a non-Literal member alone *)
+Definition in_skel (is_known inres positive elementwise acc_nonempty pat_enum is_typed typ_same : bool) : ires :=
   if is_known then (if Bool.eqb inres positive then IValue else IDrop)
-  else if positive then (if acc_nonempty then IAcceptable else IDrop)
+  else if positive then (if negb elementwise then IValue else if acc_nonempty then IAcceptable else IDrop)
   else if pat_enum then (if is_typed && typ_same then IEnumCompl else IValue)
   else IValue.
 
@@ -863,8 +865,9 @@ Definition class_obj (l : obj) : cls := match l with OClass k => k | _ => CObjec
 (* `x in "<s>"` / `x not in "<s>"`: a container whose own __contains__ (substring test) is not "equals one of
    the elements obtained by iterating it" (single characters).  _constraint_from_compare_op hands the container
    itself to InPredicate (in_arg = ArgContainer, read off the source: Gen/NarrowSrc.gen_in_arg): a Literal member is
-   tested with the container's own __contains__ (a TypeError leaves it alone); every other member is narrowed, in the
-   positive branch, to the *iterated* elements it accepts. *)
+   tested with the container's own __contains__ (a TypeError leaves it alone); every other member is left alone in
+   the positive branch, because a str is not an element-wise container (typed_rule = IterateElementwiseOnly, the
+   repaired InPredicate; before the repair it was narrowed to the *iterated* elements it accepts: IterateAlways). *)
 Fixpoint str_prefix (t s : list N) : bool :=
   match t, s with
   | [], _ => true
@@ -878,24 +881,32 @@ Definition str_chars (s : list N) : list obj := map (fun ch => OStr [ch]) s.
 Inductive in_arg := ArgContainer | ArgElements.
 Definition model_in_arg : in_arg := ArgContainer.
 
-Definition pred_instr_with (arg : in_arg) (s : list N) (sv : sval) (positive : bool) : list sval :=
+Inductive typed_rule := IterateAlways | IterateElementwiseOnly.
+Definition model_typed_rule : typed_rule := IterateElementwiseOnly.
+
+Definition pred_instr_with (arg : in_arg) (tr : typed_rule) (s : list N) (sv : sval) (positive : bool) : list sval :=
   match arg, sbase sv with
   | ArgContainer, VKnown (OStr t) => if Bool.eqb (str_infix t s) positive then [sv] else []
   | ArgContainer, VKnown _ => [sv]
-  | _, _ => pred_in (str_chars s) sv positive
+  | ArgContainer, _ =>
+      match tr, positive with
+      | IterateElementwiseOnly, true => [sv]
+      | _, _ => pred_in (str_chars s) sv positive
+      end
+  | ArgElements, _ => pred_in (str_chars s) sv positive      (* a list is an element-wise container *)
   end.
-Definition instr_narrow_with (arg : in_arg) (v : value) (s : list N) (pol : bool) : value :=
-  flat_map (fun sv => pred_instr_with arg s sv pol) v.
-Definition instr_narrow : value -> list N -> bool -> value := instr_narrow_with model_in_arg.
+Definition instr_narrow_with (arg : in_arg) (tr : typed_rule) (v : value) (s : list N) (pol : bool) : value :=
+  flat_map (fun sv => pred_instr_with arg tr s sv pol) v.
+Definition instr_narrow : value -> list N -> bool -> value := instr_narrow_with model_in_arg model_typed_rule.
 (* the run-time value of `x in "<s>"` (None: TypeError) *)
 Definition holds_instr (s : list N) (o : obj) : option bool :=
   match o with OStr t => Some (str_infix t s) | _ => None end.
 Definition all_known (v : value) : bool := forallb (fun sv => is_known_b (sbase sv)) v.
 
 (* ------------------------------------------------------------------ *)
-(* a constraint applied to a variable other than the one the condition was evaluated on (a helper returning a
-   condition about *its* parameter, called from a scope that has a variable of the same name): the value the
-   implementation gives the caller's variable *)
+(* the rule removed by 180079d (NOT the behaviour of HEAD, which leaves the caller's variable alone): a constraint
+   applied to a variable other than the one the condition was evaluated on (a helper returning a condition about
+   *its* parameter, called from a scope that has a variable of the same name) *)
 Definition leak_narrow (v_caller : value) (c : cond) (pol : bool) : value := narrow v_caller c pol.
 
 (* `case <pattern with sub-patterns> as p`: visit_MatchAs applies the whole pattern's constraint, including the
